@@ -4,7 +4,7 @@
      | B_jk(w) - integral |  <=  (thr/2 + thr^2/2) (sum_g |s_j^g| dt_g) ||N_j||_F ||C_k||_F .                  *)
 From Coq Require Import ZArith Reals Lra Lia List Setoid Morphisms.
 From Coquelicot Require Import Coquelicot.
-From FF Require Import Base.Ops Inst.RInst Base.RAlg Model.Numeric Proofs.Foi Proofs.CMBase Proofs.CMIntegral.
+From FF Require Import Base.Ops Inst.RInst Base.RAlg Model.Numeric Model.Consts Proofs.Foi Proofs.CMBase Proofs.CMIntegral.
 Import ListNotations.
 Local Open Scope R_scope.
 
@@ -22,29 +22,32 @@ Proof.
     replace ((A * C - B * B) / A * A) with (A * C - B * B) in H0 by (field; lra). lra.
 Qed.
 
-Lemma sumn2_nonneg d (f : nat -> nat -> R) : (forall m n, 0 <= f m n) ->
-  0 <= sumn' d (fun m => sumn' d (fun n => f m n)).
+Definition sum2 (d : nat) (f : nat -> nat -> R) : R := sumn' d (fun m => sumn' d (fun n => f m n)).
+Lemma sumn2_nonneg d (f : nat -> nat -> R) : (forall m n, 0 <= f m n) -> 0 <= sum2 d f.
 Proof. intros H. apply sumn_nonneg; intros m _. apply sumn_nonneg; intros n _. auto. Qed.
+Lemma sum2_ext d f g : (forall m n, (m < d)%nat -> (n < d)%nat -> f m n = g m n) -> sum2 d f = sum2 d g.
+Proof. intros H. apply sumn_ext; intros m Hm. apply sumn_ext; intros n Hn. auto. Qed.
+Lemma sum2_add d f g : sum2 d (fun m n => f m n + g m n) = sum2 d f + sum2 d g.
+Proof. unfold sum2. rewrite <- sumn_add. apply sumn_ext; intros m _. apply sumn_add. Qed.
+Lemma sum2_mul_l d a f : sum2 d (fun m n => a * f m n) = a * sum2 d f.
+Proof. unfold sum2. rewrite <- sumn_mul_l. apply sumn_ext; intros m _. apply sumn_mul_l. Qed.
 
 Lemma cauchy_schwarz2 d (x y : nat -> nat -> R) :
-  let S f := sumn' d (fun m => sumn' d (fun n => f m n)) in
-  S (fun m n => x m n * y m n) * S (fun m n => x m n * y m n) <=
-  S (fun m n => x m n * x m n) * S (fun m n => y m n * y m n).
+  sum2 d (fun m n => x m n * y m n) * sum2 d (fun m n => x m n * y m n) <=
+  sum2 d (fun m n => x m n * x m n) * sum2 d (fun m n => y m n * y m n).
 Proof.
-  intros S. apply discriminant_nonpos.
-  - apply sumn2_nonneg. intros; nra.
+  apply discriminant_nonpos.
+  - apply sumn2_nonneg. intros m n. apply (Rle_0_sqr (x m n)).
   - intros t.
-    replace (S (fun m n => x m n * x m n) * (t * t) + 2 * S (fun m n => x m n * y m n) * t + S (fun m n => y m n * y m n))
-      with (S (fun m n => (x m n * t + y m n) * (x m n * t + y m n))).
-    + apply sumn2_nonneg. intros; nra.
-    + unfold S.
-      rewrite (Rmult_comm _ (t * t)), (Rmult_comm _ t), <- Rmult_assoc, (Rmult_comm t 2).
-      rewrite <- !sumn_mul_l, <- !sumn_add. apply sumn_ext; intros m _.
-      rewrite <- !sumn_mul_l, <- !sumn_add. apply sumn_ext; intros n _. ring.
+    assert (E : sum2 d (fun m n => (x m n * t + y m n) * (x m n * t + y m n)) =
+                sum2 d (fun m n => x m n * x m n) * (t * t) + 2 * sum2 d (fun m n => x m n * y m n) * t + sum2 d (fun m n => y m n * y m n)).
+    { rewrite (sum2_ext d _ (fun m n => (t * t) * (x m n * x m n) + ((2 * t) * (x m n * y m n) + y m n * y m n))) by (intros; ring).
+      rewrite sum2_add, sum2_add, !sum2_mul_l. ring. }
+    rewrite <- E. apply sumn2_nonneg. intros m n. apply (Rle_0_sqr (x m n * t + y m n)).
 Qed.
 
 (* ---------- Frobenius norm ---------- *)
-Definition fnorm2 (d : nat) (A : fmat) : R := sumn' d (fun m => sumn' d (fun n => cabs2 RO (A m n))).
+Definition fnorm2 (d : nat) (A : fmat) : R := sum2 d (fun m n => cabs2 RO (A m n)).
 Definition Fnorm (d : nat) (A : MatR) : R := sqrt (fnorm2 d (toF A)).
 
 Lemma fnorm2_nonneg d A : 0 <= fnorm2 d A.
@@ -55,13 +58,13 @@ Proof. induction n; simpl. reflexivity. rewrite IHn. apply c_eq; csimp; ring. Qe
 
 Lemma fnorm2_trace d A : ftr d (fmul d (fadj A) A) = cofr RO (fnorm2 d A).
 Proof.
-  unfold ftr, fmul, fadj, fnorm2. rewrite sumn_swap. rewrite <- csumn_cofr'. apply csumn_ext; intros i _.
+  unfold ftr, fmul, fadj, fnorm2, sum2. rewrite sumn_swap. rewrite <- csumn_cofr'. apply csumn_ext; intros i _.
   rewrite <- csumn_cofr'. apply csumn_ext; intros k _. apply cmul_conj_abs2.
 Qed.
 
 Global Instance fnorm2_Proper d : Proper (feq d ==> eq) (fnorm2 d).
 Proof.
-  intros A A' H. unfold fnorm2. apply sumn_ext; intros m Hm. apply sumn_ext; intros n Hn. rewrite H; auto.
+  intros A A' H. unfold fnorm2. apply sum2_ext; intros m n Hm Hn. rewrite H; auto.
 Qed.
 
 (* unitary invariance: || U^dagger A U ||_F = || A ||_F *)
@@ -72,9 +75,9 @@ Proof.
   { rewrite <- !fnorm2_trace.
     rewrite !fadj_mul, !fadj_invol_feq. rewrite <- !fmul_assoc.
     (* tr (U^ (A^ (U (U^ (A U))))) *)
-    rewrite (fmul_assoc d U (fadj U)), H2, fmul_id_l.
+    rewrite (fmul_cancel_l d U (fadj U) _ H2).
     rewrite ftr_cyclic. rewrite <- !fmul_assoc.
-    rewrite (fmul_assoc d U (fadj U)), H2, fmul_id_l. reflexivity. }
+    rewrite H2, fmul_id_r. reflexivity. }
   injection E; auto.
 Qed.
 
@@ -99,18 +102,19 @@ Proof.
   set (NT := transform_by_unitary RO d V N).
   set (BT := transform_by_unitary RO d (mmul RO d (madj RO d Q) V) Cm).
   pose proof (cauchy_schwarz2 d (fun m n => Cmod (mget RO NT m n)) (fun m n => Cmod (mget RO BT n m))) as CS.
-  cbv zeta in CS. fold NT BT in CS.
-  assert (E1 : sumn' d (fun m => sumn' d (fun n => Cmod (mget RO NT m n) * Cmod (mget RO NT m n))) = fnorm2 d (toF N)).
+  cbv beta in CS.
+  assert (E1 : sum2 d (fun m n => Cmod (mget RO NT m n) * Cmod (mget RO NT m n)) = fnorm2 d (toF N)).
   { rewrite <- (fnorm2_unitary_conj d (toF V) (toF N) HV). rewrite <- (toF_transform_by_unitary d V N).
-    unfold fnorm2. apply sumn_ext; intros m _. apply sumn_ext; intros n _. apply Cmod_sq. }
-  assert (E2 : sumn' d (fun m => sumn' d (fun n => Cmod (mget RO BT n m) * Cmod (mget RO BT n m))) = fnorm2 d (toF Cm)).
+    unfold fnorm2. apply sum2_ext; intros m n _ _. apply Cmod_sq. }
+  assert (E2 : sum2 d (fun m n => Cmod (mget RO BT n m) * Cmod (mget RO BT n m)) = fnorm2 d (toF Cm)).
   { rewrite <- (fnorm2_unitary_conj d (toF (mmul RO d (madj RO d Q) V)) (toF Cm) (funitary_W V Q HV HQ)).
     rewrite <- (toF_transform_by_unitary d (mmul RO d (madj RO d Q) V) Cm).
-    unfold fnorm2. rewrite sumn_swap. apply sumn_ext; intros m _. apply sumn_ext; intros n _. apply Cmod_sq. }
+    unfold fnorm2, sum2. rewrite sumn_swap. apply sumn_ext; intros m _. apply sumn_ext; intros n _. apply Cmod_sq. }
   rewrite E1, E2 in CS.
   unfold Fnorm. rewrite <- sqrt_mult by apply fnorm2_nonneg.
   pose proof (step_weight_nonneg d V Q N Cm) as Hw. unfold step_weight in *. fold NT BT in Hw |- *.
-  set (X := sumn' d (fun m => sumn' d (fun n => Cmod (mget RO NT m n) * Cmod (mget RO BT n m)))) in *.
+  fold (sum2 d (fun m n => Cmod (mget RO NT m n) * Cmod (mget RO BT n m))) in Hw |- *.
+  set (X := sum2 d (fun m n => Cmod (mget RO NT m n) * Cmod (mget RO BT n m))) in *.
   rewrite <- (sqrt_Rsqr X) by exact Hw. apply sqrt_le_1_alt. unfold Rsqr. exact CS.
 Qed.
 End Weight.
@@ -131,7 +135,7 @@ Proof.
   intros H0. assert (He : 0 <= taylor_eps thr) by (unfold taylor_eps; nra).
   induction segs as [|[[[ev V] dt] s] r IH]; intros Q HU HQ; simpl.
   - lra.
-  - inversion HU; subst.
+  - inversion HU as [|? ? H1 H2]; subst.
     pose proof (step_weight_le_norms d V Q N Cm H1 HQ) as Hw.
     pose proof (step_weight_nonneg d V Q N Cm) as Hw0.
     specialize (IH (mmul RO d (segment_propagator RO d ev V dt) Q) H2 (Useg_unitary d ev V Q dt H1 HQ)).
@@ -168,3 +172,21 @@ Proof.
   - rewrite toF_mid. apply funitary_id.
 Qed.
 End Apriori.
+
+(* ---------- the threshold of the current source (Extracted/Src.v via Model/Consts.v) ---------- *)
+Definition foi_thr_R : R := Rdya (fst foi_thr) (snd foi_thr).
+Lemma pow2_73 : 2 ^ 73 = 9444732965739290427392.
+Proof.
+  replace (2 ^ 73) with ((2 ^ 8) ^ 9 * 2) by (rewrite <- pow_mult; simpl; ring).
+  replace (2 ^ 8) with 256 by (simpl; ring). simpl. ring.
+Qed.
+Lemma foi_thr_eps : 0 <= foi_thr_R /\ taylor_eps foi_thr_R <= 6 / 100000000.
+Proof.
+  unfold foi_thr_R, taylor_eps, Rdya.
+  replace (fst foi_thr) with 944473296573929%Z by reflexivity.
+  replace (snd foi_thr) with (-73)%Z by reflexivity.
+  unfold powerRZ. change (Pos.to_nat 73) with 73%nat. rewrite pow2_73.
+  set (t := 944473296573929 * / 9444732965739290427392).
+  assert (H : 0 <= t <= 11 / 100000000) by (unfold t; lra).
+  split. lra. nra.
+Qed.
